@@ -28,6 +28,10 @@ type topoStep struct {
 	H      string   `json:"h"`
 	N      int      `json:"n"`
 	Routed []string `json:"routed"`
+	// Mode is the state of the proxy's cluster loop the specification applied this fault in: "settled" (quiescent),
+	// "pending" (a refresh is scheduled, the refresh window has not elapsed) or "down" (the previous fault took the
+	// control connection away and the proxy has not reconnected yet)
+	Mode string `json:"mode"`
 }
 
 type topoMismatch struct {
@@ -50,6 +54,7 @@ type topoResult struct {
 	Behaviours int                    `json:"behaviours"`
 	Steps      int                    `json:"steps"`
 	Probes     int                    `json:"probes"`
+	Rushed     int                    `json:"rushed_steps"`
 	Mismatches []topoMismatch         `json:"mismatches"`
 	Delays     []topoDelay            `json:"delays"`
 	BaseNs     int64                  `json:"base_ns"`
@@ -205,6 +210,14 @@ func runTopoBehaviour(beh []topoStep, res *topoResult, base, max time.Duration, 
 			}
 		}
 		res.Steps++
+		if i+1 < len(beh) && beh[i+1].Mode != "settled" && beh[i+1].Mode != "" {
+			// the specification applies the next fault before the proxy has digested this one
+			if beh[i+1].Mode == "pending" {
+				time.Sleep(30 * time.Millisecond) // the event has been received, the refresh window (100 ms) is open
+			}
+			res.Rushed++
+			continue
+		}
 		// bounded wait for convergence: routing set, control connection, outage
 		start := time.Now()
 		var got map[string]bool
@@ -220,6 +233,9 @@ func runTopoBehaviour(beh []topoStep, res *topoResult, base, max time.Duration, 
 				got2 := tr.probe(3 * (len(st.Routed) + 1))
 				if setEq(got2, st.Routed) {
 					ok = true
+					// routing can converge before a scheduled refresh has run (a stopped node drops out by itself):
+					// let the refresh window pass so that the next fault really meets a settled proxy
+					time.Sleep(150 * time.Millisecond)
 					break
 				}
 			}
